@@ -2,6 +2,7 @@ package rules
 
 import (
 	"fmt"
+	"strings"
 	"go/token"
 	"os"
 	"sort"
@@ -219,6 +220,8 @@ var staleAllowed = map[string]struct {
 	"align.(*seqbag).TrimNamesAuto": {1, "length of the generated identifiers: grows when the current width is exhausted"},
 	"cmd.var samplesitesCmd$1":      {1, "output name, recomputed per sample when several files are written"},
 	"cmd.var subseqCmd$1":           {3, "output file and file suffix of the current window/alignment: reopened when one file per window is requested"},
+	"distance/protein.(*ProtDistModel).dist_F_Brent": {2, "a and b: the bracket of Brent's minimiser, narrowed on one side per step (thorough tier scope)"},
+	"models.IncompleteGamma":                        {1, "gin: term of the continued fraction kept when the convergence test of this step is skipped (thorough tier scope)"},
 	"cmd.var subsitesCmd$1":         {2, "output file, as in subseq; the site list, converted to alignment coordinates only when a reference sequence is given"},
 }
 
@@ -228,6 +231,9 @@ var staleAllowed = map[string]struct {
 // state-machine variables listed in staleAllowed.
 func (c *Ctx) checkStaleState(rule string, rels ...string) {
 	L := c.L
+	if c.Thorough() {
+		rels = nil // thorough tier: every package of the module
+	}
 	L.Rule(rule, "no loop carries a variable from one iteration to the next that is overwritten in some iterations only (under a condition that does not read it, with a value not computed from it) and is read in the loop body — the key, length or buffer computed for one row/site/alignment must not be used for the next; the state-machine variables of the pinned tree that have this shape by design are listed with their reason and counted per function")
 	type hit struct {
 		vars []string
@@ -236,6 +242,9 @@ func (c *Ctx) checkStaleState(rule string, rels ...string) {
 	byRoot := map[string]*hit{}
 	nFuncs, nLoops := 0, 0
 	for _, fn := range c.srcFuncs(rels...) {
+		if pk := fn.Pkg; len(rels) == 0 && pk != nil && strings.Contains(pk.Pkg.Path(), "/io/") {
+			continue // the format parsers are token state machines by construction
+		}
 		nFuncs++
 		for _, f := range withAnons(fn) {
 			nLoops += len(naturalLoops(f))
